@@ -424,7 +424,7 @@ def build_payload(op, p, ver, intern):
             if w.get("kuid") is not None:
                 eki = cobjects.EncryptionKeyInformation(
                     unique_identifier=str(w["kuid"]),
-                    cryptographic_parameters=cattrs.CryptographicParameters(
+                    cryptographic_parameters=None if w.get("nocp") else cattrs.CryptographicParameters(
                         block_cipher_mode=E(enums.BlockCipherMode, w.get("mode", "NIST_KEY_WRAP"))))
             mski = None
             if w.get("muid") is not None:
